@@ -1030,26 +1030,22 @@ func (w *joeWorld) checkDeliveries() {
 			}
 		}
 		if s.accepted == 0 {
-			if w.rep.panicked || w.noWitness {
-				// no acceptance witness: a subscriber that has received a message is
-				// certainly registered from that Send on
-				if first := firstSendSeq(s); first != 0 && s.replayErr == nil {
-					endSeq := s.cancelReq
-					if s.failSeq != 0 && (endSeq == 0 || s.failSeq < endSeq) {
-						endSeq = s.failSeq
-					}
-					if w.shutdownSeq != 0 && (endSeq == 0 || w.shutdownSeq < endSeq) {
-						endSeq = w.shutdownSeq
-					}
-					saved := s.accepted
-					s.accepted = first
-					w.checkMustInclude(s, seen, endSeq, prop)
-					s.accepted = saved
+			// no acceptance witness (no replayer, a replayer that panicked earlier, or an
+			// implementation that does not consult the replayer for this subscription):
+			// a subscriber that has received a message is certainly registered from that
+			// Send on
+			if first := firstSendSeq(s); first != 0 && s.replayErr == nil {
+				endSeq := s.cancelReq
+				if s.failSeq != 0 && (endSeq == 0 || s.failSeq < endSeq) {
+					endSeq = s.failSeq
 				}
-				continue // subscribed after the replayer had panicked: no acceptance witness (order, duplicates and topics were checked above)
-			}
-			if len(sent) > 0 {
-				o.violate(prop, "never-accepted", "sub%d was never accepted but received %s", s.id, tagsOf(sent))
+				if w.shutdownSeq != 0 && (endSeq == 0 || w.shutdownSeq < endSeq) {
+					endSeq = w.shutdownSeq
+				}
+				saved := s.accepted
+				s.accepted = first
+				w.checkMustInclude(s, seen, endSeq, prop)
+				s.accepted = saved
 			}
 			continue
 		}
